@@ -69,7 +69,7 @@ def instances(tier, seed):
                                       maxrank=2))
     rng.shuffle(trees)
     # a structure-less PyTree whose leaf type contains a *named* PyTree: a later leaf fails
-    for variant in range(4):
+    for variant in range(8):
         out.append(("core", dict(kind="nestedstruct", variant=variant, prior=[], maxrank=1)))
     ncore = 170 if tier == "quick" else len(trees)
     for i, t in enumerate(trees):
@@ -219,13 +219,30 @@ def scenario(inst, V):
             n = judge(V, pre, got, post, lambda: observe(lambda: isinstance(arr, ann)), tag="union-")
             obs.update(verdict=n, single=post["single"], variadic=post["variadic"])
         elif kind == "nestedstruct":
+            import typing
             v = inst["variant"]
-            leafT = tuple[jt.PyTree[int, "T"], str]
-            good, bad = ((1, 2), "a"), ((3, 4), 5)
-            tree = [[good, bad], [good, ((3, 4, 5), "b")], [bad], [good, good]][v]
+            expected = None
+            if v < 4:
+                leafT = tuple[jt.PyTree[int, "T"], str]
+                good, bad = ((1, 2), "a"), ((3, 4), 5)
+                tree = [[good, bad], [good, ((3, 4, 5), "b")], [bad], [good, good]][v]
+            elif v < 6:
+                # the named PyTree is one member of a union: while the enclosing tree is being
+                # flattened, the probe of an intermediate node binds T and then fails at a leaf
+                leafT = typing.Union[str, jt.PyTree[int, "T"]]
+                tree = [(1, "hi"), [(1, 2), (3, 4), "s"]][v - 4]
+                expected = D.ACC
+            else:
+                # the same with array leaves of solver-chosen sizes
+                inner = jt.PyTree[jt.Float[V.ARR, "a"], "T"]
+                leafT = typing.Union[int, inner]
+                x, y = V.arr([V.int("lx", 0)]), V.arr([V.int("ly", 0)])
+                tree = [[(x, y), 7], [(x, y), (y, x), 7]][v - 6]
             pre = base.bindings()
             got = observe(lambda: isinstance(tree, jt.PyTree[leafT]))
             post = base.bindings()
+            if expected is not None:
+                V.check("nested-verdict", got == expected, got=str(got))
             n = judge(V, pre, got, post, lambda: observe(lambda: isinstance(tree, jt.PyTree[leafT])), tag="pytree-")
             obs.update(verdict=n, pytree=sorted(post["pytree"]))
         elif kind == "pytree":
